@@ -237,11 +237,26 @@ def create_table(
                 if itemset_type is LR_1 and not merge_states(
                     target_state, maybe_new_state
                 ):
-                    target_state = maybe_new_state
-                    state_queue.append(target_state)
-                    state_id += 1
-                    if _verif.ON:
-                        _verif.state_budget(grammar, state_id, _old_start_production_rhs)
+                    # Merging is refused. Before splitting try other states
+                    # with the same kernel created by previous splits.
+                    # Otherwise, the same split would be repeated forever
+                    # for recursive grammars.
+                    for other_state in chain(states, state_queue):
+                        if (
+                            other_state is not target_state
+                            and other_state == maybe_new_state
+                            and merge_states(other_state, maybe_new_state)
+                        ):
+                            target_state = other_state
+                            break
+                    else:
+                        target_state = maybe_new_state
+                        state_queue.append(target_state)
+                        state_id += 1
+                        if _verif.ON:
+                            _verif.state_budget(
+                                grammar, state_id, _old_start_production_rhs
+                            )
 
             # Create entries in GOTO and ACTION tables
             if isinstance(symbol, NonTerminal):
